@@ -105,6 +105,12 @@ def gen(ctx, progs, n):
                 out.append((prog, '1b' * k + '>2' + '!2' + '2c' * j + '>1>2>1>2'))
                 out.append((prog, '0a' * 4 + '1b' * k + '>2' + '>1' + '!1' + '1b' * j + '!2' + '>0>0>1>2'))
                 if j == 0: out.append((prog, '~2~1' + '0a' * 4 + '1b' * k + '>2' + '>1' + '>0>0>1>2>1>2'))     # spurious ENOSYS of the sleepers' FUTEX_WAIT (compat fallback must cope with wakes that reach the kernel)
+    # qsbr: a grace-period leader asleep on the futex, waiting for a thread that is online and whose next RCU-visible action is synchronize_rcu() itself
+    # (the caller marks itself offline for the duration - that transition must wake the leader)
+    if any(p.startswith('QQ/') or 'Q' in p for p in progs):
+        for prog in ('S/S', 'S/S/Q', 'S/rS', 'SS/S'):
+            for k in range(12, 130, 4 if ctx.quick() else 1):
+                out.append((prog, '0a' * k + '>1' + '0a' * 20 + '>1>0>0'))
     nrand = len(out) + max(n // 2, 150)        # the random part is always present, whatever the size of the sweeps
     while len(out) < nrand:
         prog = ctx.rng.choice(progs); th = [str(i) for i in range(prog.count('/') + 1)]
